@@ -487,6 +487,12 @@ def dir_roundtrips(out, tier, r, h):
             stats["oracle_failures"] += 1
             out.violation("restored directory differs from what was cached (prior state '%s'): missing %s, unexpected %s" % (
                 k, show(before - after, 4), show(after - before, 4)), rp)
+        elif len(f) > 4 and "reload=0" in f[4]:
+            stats["oracle_failures"] += 1
+            out.violation("the restored directory is not independent of the cache: after its files were modified in place and the tree "
+                          "removed, a second restore does not reproduce the cached tree (prior state '%s')" % k, rp)
+        elif len(f) > 4 and "reload=1" in f[4]:
+            stats["reload_after_inplace_edit_ok"] = stats.get("reload_after_inplace_edit_ok", 0) + 1
         # correspondence
         ml = parse_listing(mo[2], model=True) if mo[0] == "ok" and mo[1] == "ok" else None
         if ml != drop_size(after) or guards(mo)["wf"] != "1":
@@ -584,8 +590,13 @@ def file_roundtrips(out, tier, r, h):
             if not any(not v["no_input"] for v in out.violations):
                 out.violation("correspondence Tree.file_load ~ FileOutputHandler.Load broke: impl %s %s, model %s %s" % (
                     cls, show(after), mcls, show(ml)), dict(rp, correspondence="Tree.file_write/file_load vs FileOutputHandler"), no_input=True)
+        if cls == "ok" and after == before and "reload=0" in impl[i]:
+            out.violation("the restored file is not independent of the cache: after it was modified in place and removed, a second restore "
+                          "does not reproduce the cached file (prior state '%s')" % k, rp)
+            continue
         if cls == "ok" and after == before:
             st["exact"] += 1
+            st["reload_after_inplace_edit_ok"] = st.get("reload_after_inplace_edit_ok", 0) + ("reload=1" in impl[i])
             st["exact_over_directory"] += d[0] == "D"
             st["exec_bit_restored_over_other_bit"] += d[0] == "F" and int(g["prior_exec"]) != x
             continue
